@@ -47,6 +47,19 @@ Fixpoint capture_free (s : list (N * expr)) (e : expr) : bool :=
 
 Definition consts (l : list (N * Q)) : list (N * expr) := map (fun p => (fst p, Const (snd p))) l.
 
+(* evaluate_symbolic called several times in a row (the head of the list first); the guard asks every step to be
+   capture free on the formula it is applied to *)
+Fixpoint subst_chain (ss : list (list (N * expr))) (e : expr) : expr :=
+  match ss with
+  | [] => e
+  | s :: rest => subst_chain rest (subst s e)
+  end.
+Fixpoint chain_free (ss : list (list (N * expr))) (e : expr) : bool :=
+  match ss with
+  | [] => true
+  | s :: rest => capture_free s e && chain_free rest (subst s e)
+  end.
+
 (* ---- builders (ExpressionScalar.__add__ ... between an expression and an expression / number) ----------------- *)
 Definition build (o : bop) (a b : expr) : expr :=
   match o with
